@@ -86,6 +86,7 @@ func (m *Matcher) Loop() {
 		if stop {
 			break
 		}
+		verifPoint("matcher:dequeued")
 
 		cacheCleared := false
 		if request.sort != m.sort || request.revision != m.revision {
@@ -126,6 +127,7 @@ func (m *Matcher) Loop() {
 				m.mergerCache[patternString] = merger
 			}
 			merger.final = request.final
+			verifPoint("matcher:publish")
 			m.eventBox.Set(EvtSearchFin, merger)
 		}
 	}
@@ -188,6 +190,7 @@ func (m *Matcher) scan(request MatchRequest) (*Merger, bool) {
 			count := 0
 			allMatches := make([][]Result, len(chunks))
 			for idx, chunk := range chunks {
+				verifPoint("matcher:chunk")
 				matches := request.pattern.Match(chunk, slab)
 				allMatches[idx] = matches
 				count += len(matches)
